@@ -14,23 +14,24 @@ def op(o, p, v=0):
 
 def scenarios(tier):
     s = [
-        dict(ops=[op("assoc", "p1"), op("up", "p1", 1)], waiters=["w1"], calls=2, cancel=False),
-        dict(ops=[op("up", "p1", 1), op("assoc", "p1"), op("up", "p1", 2)], waiters=["w1"], calls=2, cancel=False),
-        dict(ops=[op("assoc", "p1"), op("up", "p1", 1)], waiters=["w1"], calls=1, cancel=True),
-        dict(ops=[op("assoc", "p1"), op("assoc", "p2"), op("up", "p2", 2)], waiters=["w1"], calls=2, cancel=False),
-        dict(ops=[op("assoc", "p1"), op("up", "p1", 1), op("up", "p1", 0)], waiters=["w1"], calls=3, cancel=False),
-        dict(ops=[op("assoc", "p1"), op("up", "p1", 1)], waiters=["w1", "w2"], calls=1, cancel=False),
+        dict(ops=[op("assoc", "p1"), op("up", "p1", 1)], waiters=["w1"], calls=2, cancel="none"),
+        dict(ops=[op("up", "p1", 1), op("assoc", "p1"), op("up", "p1", 2)], waiters=["w1"], calls=2, cancel="none"),
+        dict(ops=[op("assoc", "p1"), op("up", "p1", 1)], waiters=["w1"], calls=1, cancel="all"),
+        dict(ops=[op("assoc", "p1"), op("assoc", "p2"), op("up", "p2", 2)], waiters=["w1"], calls=2, cancel="none"),
+        dict(ops=[op("assoc", "p1"), op("up", "p1", 1), op("up", "p1", 0)], waiters=["w1"], calls=3, cancel="none"),
+        dict(ops=[op("assoc", "p1"), op("up", "p1", 1)], waiters=["w1", "w2"], calls=1, cancel="none"),
+        dict(ops=[op("assoc", "p1"), op("up", "p1", 1)], waiters=["w1", "w2"], calls=1, cancel="w1"),   # one of two waiters gives up
     ]
     if tier != "quick":
-        s += [dict(ops=[op("assoc", "p1"), op("up", "p1", 1), op("assoc", "p2")], waiters=["w1", "w2"], calls=2, cancel=False),
-              dict(ops=[op("up", "p2", 1), op("assoc", "p2"), op("up", "p2", 0)], waiters=["w1", "w2"], calls=1, cancel=True)]
+        s += [dict(ops=[op("assoc", "p1"), op("up", "p1", 1), op("assoc", "p2")], waiters=["w1", "w2"], calls=2, cancel="none"),
+              dict(ops=[op("up", "p2", 1), op("assoc", "p2"), op("up", "p2", 0)], waiters=["w1", "w2"], calls=1, cancel="all")]
     return s
 
 
 def tla_scen(s):
     ops = ", ".join('[op |-> "%s", p |-> "%s", v |-> %d]' % (o["op"], o["p"], o["v"]) for o in s["ops"])
     return '[ops |-> <<%s>>, waiters |-> {%s}, calls |-> %d, cancel |-> %s]' % (
-        ops, ", ".join('"%s"' % w for w in s["waiters"]), s["calls"], "TRUE" if s["cancel"] else "FALSE")
+        ops, ", ".join('"%s"' % w for w in s["waiters"]), s["calls"], '"%s"' % s["cancel"])
 
 
 def gen(ctx):
@@ -74,7 +75,7 @@ def gen(ctx):
     # model-independent schedules (vf.blind_schedules): interleavings the model of the current code never enables
     nb = 250 if quick else 4000
     for si, sc in enumerate(scs):
-        threads = ["upd"] + sorted(sc["waiters"]) + (["cancel"] if sc["cancel"] else [])
+        threads = ["upd"] + sorted(sc["waiters"]) + (["cancel"] if sc["cancel"] != "none" else [])
         for seq in vf.blind_schedules(ctx.rng, threads, nb, 14 + 8 * len(threads)):
             out.append({"id": len(out), "cfg": dict(sc, scen=si + 1, peers=PEERS, model="blind"),
                         "steps": [{"act": "step", "d": t} for t in seq], "expect": {}})
@@ -98,21 +99,23 @@ NU_MON = ("MonNotifyUser", "Mon_NotifyUser.cfg")
 
 
 def nu_scenarios(tier):
-    s = [dict(kind="lifecycle", ops=[1, 0], waiters=["w1"], calls=2, cancel=False),
-         dict(kind="lifecycle", ops=[1], waiters=["w1", "w2"], calls=1, cancel=True),
-         dict(kind="lifecycle", ops=[1, 1, 0], waiters=["w1"], calls=2, cancel=False),
-         dict(kind="peercache", ops=[1, 2], waiters=["w1"], calls=2, cancel=False),
-         dict(kind="peercache", ops=[1, 1, 2], waiters=["w1", "w2"], calls=1, cancel=False),
-         dict(kind="peercache", ops=[1], waiters=["w1"], calls=1, cancel=True)]
+    s = [dict(kind="lifecycle", ops=[1, 0], waiters=["w1"], calls=2, cancel="none"),
+         dict(kind="lifecycle", ops=[1], waiters=["w1", "w2"], calls=1, cancel="all"),
+         dict(kind="lifecycle", ops=[1, 1, 0], waiters=["w1"], calls=2, cancel="none"),
+         dict(kind="peercache", ops=[1, 2], waiters=["w1"], calls=2, cancel="none"),
+         dict(kind="peercache", ops=[1, 1, 2], waiters=["w1", "w2"], calls=1, cancel="none"),
+         dict(kind="peercache", ops=[1], waiters=["w1"], calls=1, cancel="all"),
+         dict(kind="lifecycle", ops=[1], waiters=["w1", "w2"], calls=1, cancel="w1"),
+         dict(kind="peercache", ops=[1, 2], waiters=["w1", "w2"], calls=1, cancel="w2")]
     if tier != "quick":
-        s += [dict(kind="lifecycle", ops=[1, 0, 1], waiters=["w1", "w2"], calls=2, cancel=False),
-              dict(kind="peercache", ops=[1, 2, 3], waiters=["w1", "w2"], calls=2, cancel=True)]
+        s += [dict(kind="lifecycle", ops=[1, 0, 1], waiters=["w1", "w2"], calls=2, cancel="none"),
+              dict(kind="peercache", ops=[1, 2, 3], waiters=["w1", "w2"], calls=2, cancel="all")]
     return s
 
 
 def nu_tla(s):
     return '[kind |-> "%s", ops |-> <<%s>>, waiters |-> {%s}, calls |-> %d, cancel |-> %s]' % (
-        s["kind"], ", ".join(str(v) for v in s["ops"]), ", ".join('"%s"' % w for w in s["waiters"]), s["calls"], "TRUE" if s["cancel"] else "FALSE")
+        s["kind"], ", ".join(str(v) for v in s["ops"]), ", ".join('"%s"' % w for w in s["waiters"]), s["calls"], '"%s"' % s["cancel"])
 
 
 def run_notify_users(ctx):
@@ -133,7 +136,7 @@ def run_notify_users(ctx):
         scripts.append({"id": len(scripts), "cfg": dict(scs[si - 1], scen=si), "steps": [x for x in h if x["act"] == "step"]})
     nb = 150 if quick else 2500
     for si, sc in enumerate(scs):
-        threads = ["upd"] + sorted(sc["waiters"]) + (["cancel"] if sc["cancel"] else [])
+        threads = ["upd"] + sorted(sc["waiters"]) + (["cancel"] if sc["cancel"] != "none" else [])
         for seq in vf.blind_schedules(ctx.rng, threads, nb, 12 + 8 * len(threads)):
             scripts.append({"id": len(scripts), "cfg": dict(sc, scen=si + 1), "steps": [{"act": "step", "d": t} for t in seq]})
     cap = 3000 if quick else 40000
